@@ -37,6 +37,47 @@ def free_consts(terms):
     return out
 
 
+def captured_subterms(terms, bound):
+    """The maximal subterms of `terms` that do not depend on the bound constants (element, index) and are not pure
+    literals: what a comprehension captures from its environment.  Abstracting whole subterms (rather than the free
+    constants inside them) makes `[p[i] + [x] for x in xs]` and `[q + [x] for x in xs]` instances of one function."""
+    bound_ids = {b.get_id() for b in bound}
+    dep, lit = {}, {}
+
+    def depends(t):
+        k = t.get_id()
+        if k not in dep:
+            _KEEPALIVE.append(t)
+            dep[k] = k in bound_ids or any(depends(c) for c in t.children())
+        return dep[k]
+
+    def literal(t):
+        k = t.get_id()
+        if k not in lit:
+            _KEEPALIVE.append(t)
+            if z3.is_app(t) and t.decl().kind() in (z3.Z3_OP_UNINTERPRETED, z3.Z3_OP_RECURSIVE):
+                lit[k] = False
+            else:
+                lit[k] = all(literal(c) for c in t.children())
+        return lit[k]
+    caps, seen = [], set()
+
+    def walk(t):
+        k = t.get_id()
+        if k in seen:
+            return
+        seen.add(k)
+        if not depends(t):
+            if not literal(t) and not any(t.eq(c) for c in caps):
+                caps.append(t)
+            return
+        for c in t.children():
+            walk(c)
+    for t in terms:
+        walk(t)
+    return sorted(caps, key=lambda c: str(c.sort()))         # stable: first occurrence within a sort
+
+
 _BODY_CACHE = {}
 
 
@@ -193,6 +234,23 @@ def remember(kind, terms, params, funcs):
     _FUNCS.setdefault(sig, []).append((kind, terms, funcs))
 
 
+def comp_element_function(t):
+    """For t = CompVal_n(seqs..., start, caps...): the element term Elt_n(e..., i, caps...) at arbitrary fresh e, i
+    (every element of t is such a value), else None."""
+    if not z3.is_app(t):
+        return None
+    name = t.decl().name()
+    for fams in _FUNCS.values():
+        for (_, _, funcs) in fams:
+            if funcs[0].name() == name:
+                FV, FE, may_err, (EV, EK, f_params) = funcs
+                m = (FV.arity() - 1 - len(f_params))
+                caps = [t.arg(m + 1 + i) for i in range(len(f_params))]
+                es = [z3.Const(f"al_e{c}", V.Val) for c in range(m)]
+                return EV(*es, z3.Int("al_i"), *caps)
+    return None
+
+
 def n_funcs():
     return sum(len(v) for v in _FUNCS.values())
 
@@ -245,7 +303,7 @@ def build_comprehension(ip, node, g, it, fr):
     canon_es = [z3.Const(f"elt!canon{c}", V.Val) for c in range(m)]
     terms = [val, z3.simplify(keep_cond), err]
     bound = list(es) + [idx]
-    caps = sorted([c for c in free_consts(terms) if not any(c.eq(b) for b in bound)], key=lambda c: (str(c.sort()), str(c)))
+    caps = captured_subterms(terms, bound)
     params = [z3.Const(f"cap!{i}", c.sort()) for i, c in enumerate(caps)]
     sub = list(zip(caps, params)) + list(zip(es, canon_es)) + [(idx, CANON_I)]
     cval, ckeep, cerr = [z3.substitute(t, *sub) for t in terms]
@@ -283,11 +341,18 @@ def build_comprehension(ip, node, g, it, fr):
         EE_at = z3.substitute(err, *([(es[c], seqs[c][jj]) for c in range(m)] + [(idx, jj)]))
         sv = z3.Solver()
         sv.set("timeout", 3000)
-        sv.add(*ip.path.pc)
-        sv.add(jj >= 0, jj < n_len0, *ip.path.instances(jj))
         keep_at = z3.substitute(z3.simplify(keep_cond), *([(es[c], seqs[c][jj]) for c in range(m)] + [(idx, jj)]))
-        sv.add(z3.Or(EE_at != 0, z3.Not(keep_at)) if not g.ifs else EE_at != 0)
-        no_err = sv.check() == z3.unsat
+        from . import specfun
+        q_terms, q_ax = specfun.defuel(list(ip.path.pc) + [jj >= 0, jj < n_len0] + ip.path.instances(jj) + [
+            z3.Or(EE_at != 0, z3.Not(keep_at)) if not g.ifs else EE_at != 0], 1)
+        sv.add(*q_terms)
+        sv.add(*q_ax)
+        import os as _os
+        _r = sv.check()
+        if _os.environ.get("PYVC_DUMP"):
+            _n = len(_os.listdir(_os.environ["PYVC_DUMP"]))
+            open(_os.path.join(_os.environ["PYVC_DUMP"], f"pw{_n}_{node.lineno}_{_r}.smt2"), "w").write(sv.to_smt2())
+        no_err = _r == z3.unsat
         code = FE(*seqs, z3.IntVal(0), *caps)
         if not no_err:
             ip.guard([(k, code == KIND_CODE[k]) for k in errs])
@@ -337,14 +402,19 @@ def _emit_map_lemma(ip, FV, EV, EK, m, f_params, keep_proved_pointwise=False):
         base = Obligation(f"lemma:map-comprehension/{m}#base", [li >= n], z3.Length(F(li)) == 0, kind="lemma")
         unfolded = F(li) == z3.Concat(z3.Unit(e_at(li)), F(li + 1))
         unfold = Obligation(f"lemma:map-comprehension/{m}#unfold", [li >= 0, li < n], unfolded, kind="lemma")
-        ih_len = z3.Length(F(li + 1)) == n - li - 1
-        s_len = Obligation(f"lemma:map-comprehension/{m}#step-len", [li >= 0, li < n, unfolded, ih_len],
-                           z3.Length(F(li)) == n - li, kind="lemma")
-        s_head = Obligation(f"lemma:map-comprehension/{m}#step-head", [li >= 0, li < n, unfolded, lj == 0],
-                            F(li)[lj] == e_at(li + lj), kind="lemma")
+        # the induction steps use the function only through the unfolding equation (their hypothesis), so they are stated
+        # for an arbitrary function G satisfying it: no recursive definition in these queries (z3 is unstable on them)
+        Tu = z3.Function(f"TplMapU{m}", *([V.VS] * m), V.I, V.VS)
+        G = lambda k: Tu(*ls, k)
+        unfolded_g = G(li) == z3.Concat(z3.Unit(e_at(li)), G(li + 1))
+        ih_len = z3.Length(G(li + 1)) == n - li - 1
+        s_len = Obligation(f"lemma:map-comprehension/{m}#step-len", [li >= 0, li < n, unfolded_g, ih_len],
+                           z3.Length(G(li)) == n - li, kind="lemma")
+        s_head = Obligation(f"lemma:map-comprehension/{m}#step-head", [li >= 0, li < n, unfolded_g, lj == 0],
+                            G(li)[lj] == e_at(li + lj), kind="lemma")
         s_tail = Obligation(f"lemma:map-comprehension/{m}#step-tail",
-                            [li >= 0, li < n, unfolded, ih_len, lj > 0, lj < n - li, F(li + 1)[lj - 1] == e_at(li + lj)],
-                            F(li)[lj] == e_at(li + lj), kind="lemma")
+                            [li >= 0, li < n, unfolded_g, ih_len, lj > 0, lj < n - li, G(li + 1)[lj - 1] == e_at(li + lj)],
+                            G(li)[lj] == e_at(li + lj), kind="lemma")
         ip.path.obligations += [base, unfold, s_len, s_head, s_tail]
     name = FV.name()
     if name in LEMMAS_EMITTED or keep_proved_pointwise:
